@@ -86,8 +86,13 @@ class SimulatesSamples(work.Sampler, metaclass=abc.ABCMeta):
         for param_resolver in study.to_resolvers(params):
             records = {}
             if repetitions == 0:
+                # No shots: every key still has its number of instances and of measured qubits.
+                shapes: dict[str, tuple[int, int]] = {}
                 for _, op, _ in program.findall_operations_with_gate_type(ops.MeasurementGate):
-                    records[protocols.measurement_key_name(op)] = np.empty([0, 1, 1])
+                    key = protocols.measurement_key_name(op)
+                    shapes[key] = (shapes.get(key, (0, 0))[0] + 1, len(op.qubits))
+                for key, (instances, width) in shapes.items():
+                    records[key] = np.empty([0, instances, width], dtype=np.uint8)
             else:
                 records = self._run(
                     circuit=program, param_resolver=param_resolver, repetitions=repetitions
